@@ -712,6 +712,12 @@ where
     }
 }
 
+const MAX_RESERVE: usize = 1 << 16;
+
+fn invalid_frame() -> std::io::Error {
+    std::io::Error::from(std::io::ErrorKind::InvalidData)
+}
+
 impl Decoder for RawResponseMessageDecoder {
     type Item = ResponseMessage<BytesStr, Bytes, Bytes>;
     type Error = std::io::Error;
@@ -728,9 +734,16 @@ impl Decoder for RawResponseMessageDecoder {
         let lane_len = header.get_u32() as usize;
         let body_len_and_tag = header.get_u64();
         let body_len = (body_len_and_tag & !OP_MASK) as usize;
+        let tag = (body_len_and_tag & OP_MASK) >> OP_SHIFT;
+        match tag {
+            LINKED | SYNCED if body_len != 0 => return Err(invalid_frame()),
+            LINKED | SYNCED | UNLINKED | EVENT => {}
+            _ => return Err(invalid_frame()),
+        }
         let required = HEADER_INIT_LEN + node_len + lane_len + body_len;
         if src.remaining() < required {
-            src.reserve(required - src.remaining());
+            // The lengths are not trusted: they are only a hint for how much space to make.
+            src.reserve((required - src.remaining()).min(MAX_RESERVE));
             return Ok(None);
         }
         src.advance(HEADER_INIT_LEN);
@@ -743,7 +756,6 @@ impl Decoder for RawResponseMessageDecoder {
             .map_err(|_| std::io::Error::from(std::io::ErrorKind::InvalidData))?;
 
         let path = RelativeAddress::new(node, lane);
-        let tag = (body_len_and_tag & OP_MASK) >> OP_SHIFT;
         match tag {
             LINKED => Ok(Some(BytesResponseMessage::linked(target, path))),
             SYNCED => Ok(Some(BytesResponseMessage::synced(target, path))),
@@ -779,9 +791,16 @@ impl Decoder for RawRequestMessageDecoder {
         let lane_len = header.get_u32() as usize;
         let body_len_and_tag = header.get_u64();
         let body_len = (body_len_and_tag & !OP_MASK) as usize;
+        let tag = (body_len_and_tag & OP_MASK) >> OP_SHIFT;
+        match tag {
+            LINK | SYNC | UNLINK if body_len != 0 => return Err(invalid_frame()),
+            LINK | SYNC | UNLINK | COMMAND => {}
+            _ => return Err(invalid_frame()),
+        }
         let required = HEADER_INIT_LEN + node_len + lane_len + body_len;
         if src.remaining() < required {
-            src.reserve(required);
+            // The lengths are not trusted: they are only a hint for how much space to make.
+            src.reserve((required - src.remaining()).min(MAX_RESERVE));
             return Ok(None);
         }
         src.advance(HEADER_INIT_LEN);
@@ -794,7 +813,6 @@ impl Decoder for RawRequestMessageDecoder {
             .map_err(|_| std::io::Error::from(std::io::ErrorKind::InvalidData))?;
 
         let path = RelativeAddress::new(node, lane);
-        let tag = (body_len_and_tag & OP_MASK) >> OP_SHIFT;
         match tag {
             LINK => Ok(Some(RequestMessage::link(origin, path))),
             SYNC => Ok(Some(RequestMessage::sync(origin, path))),
